@@ -6,6 +6,7 @@ import (
 	"math/rand"
 	"os"
 	"path/filepath"
+	"runtime"
 	"sort"
 	"strings"
 	"sync"
@@ -729,6 +730,24 @@ func NewReqID(spec *CaseSpec) string {
 
 // Run executes one case and returns what was observed.
 func Run(spec *CaseSpec, opts *RunOpts) *Outcome {
+	out := runOnce(spec, opts)
+	if strings.Contains(out.Inconclusive, "case watchdog") && (opts == nil || opts.Dir == "") {
+		// The 120 s wall-clock watchdog is not a verdict. It has fired on a heavily
+		// loaded machine for cases that take 0.2 s otherwise: dump the goroutines for
+		// diagnosis and run the case once more; a second firing stays inconclusive.
+		buf := make([]byte, 1<<20)
+		n := runtime.Stack(buf, true)
+		_ = os.WriteFile(filepath.Join(os.TempDir(), fmt.Sprintf("verif-watchdog-%s-%d.txt", spec.ID, os.Getpid())), buf[:n], 0644)
+		WatchdogRetries.Add(1)
+		out = runOnce(spec, opts)
+	}
+	return out
+}
+
+// WatchdogRetries counts cases re-run after the wall-clock watchdog fired.
+var WatchdogRetries atomic.Int64
+
+func runOnce(spec *CaseSpec, opts *RunOpts) *Outcome {
 	Init()
 	if opts == nil {
 		opts = &RunOpts{}
